@@ -48,6 +48,11 @@ theorem C02_servers_types_exact (roots : List DT) (rootFile : Bytes) (banned : L
   exact ⟨by simpa [serverNames] using (addList_servers content b.expanded _ s hadd).1,
          by simpa [typeNames] using (addList_types content b.expanded _ s hadd).1⟩
 
+/-- the arms of the model's `addDirective` are the handlers the regenerated dispatch table
+    (`directiveFunctions`, core/core.go) assigns to each directive kind: re-wiring a kind in the code
+    breaks this obligation -/
+theorem handlers_pinned : (Kind.all.all fun k => dispatchTable.lookup k == handlerName k) = true := by decide
+
 /-- non-vacuity: a two-directive forest the model accepts, with its one interaction -/
 example :
     let mk (k : Kind) (kw : String) (named : List (String × Bytes)) (b : Int) : Dir :=
